@@ -541,4 +541,228 @@ theorem isInteger_form (t : List Byte) (h : isInteger t = true) :
   exact ⟨sg, (splitSign t).2, ht, hsg, by intro e; rw [e] at h; simp at h, h.2⟩
 
 
+/-! ### the delimiter is never consumed: infrastructure -/
+
+/-- no `,` and no `)` -/
+def NoCP (m : List Byte) : Prop := ∀ b ∈ m, b ≠ 44 ∧ b ≠ 41
+
+
+theorem NoCP.of_notDelim {m : List Byte} (h : ∀ b ∈ m, isDelim attrDelims b = false) : NoCP m := by
+  intro b hb
+  have := h b hb
+  constructor <;> (intro e; subst e; revert this; decide)
+
+
+theorem NoCP.append {a b : List Byte} (ha : NoCP a) (hb : NoCP b) : NoCP (a ++ b) := by
+  intro x hx
+  rcases List.mem_append.mp hx with h | h
+  · exact ha x h
+  · exact hb x h
+
+
+theorem NoCP.blanks {sp : List Byte} (h : sp.all isSpace = true) : NoCP sp :=
+  NoCP.of_notDelim (fun x hx => space_not_delim (List.all_eq_true.mp h x hx))
+
+
+theorem NoCP.digits {ds : List Byte} (h : ds.all isDigit = true) : NoCP ds :=
+  NoCP.of_notDelim (fun x hx => digit_not_delim (List.all_eq_true.mp h x hx))
+
+
+theorem NoCP.sign {sg : List Byte} (h : IsSign sg) : NoCP sg := by
+  rcases h with rfl | rfl | rfl <;> intro b hb <;> simp at hb <;> subst hb <;> decide
+
+
+theorem NoCP.nil : NoCP [] := by intro b hb; cases hb
+
+
+/-- the delimiter that follows is never consumed: everything the reader took from the stream is a stretch without `,`/`)`,
+    then separators, then a stretch without `,`/`)` — a delimiter is only ever passed inside a comment -/
+def KeptDelims (cfg : LexCfg) (input : List Byte) (s : IStream) : Prop :=
+  ∃ a lay b, input = a ++ lay ++ b ++ s.right ∧ s.left = (a ++ lay ++ b).reverse ∧ NoCP a ∧ Between cfg lay ∧ NoCP b
+
+
+/-- from a reader that took `k` (no `,`/`)`) after the blanks `sp1`, through `CheckRemainingInput` -/
+theorem kept_through_cri (cfg : LexCfg) (sp1 k rest : List Byte) (eof fail sk : Bool) (e : Sev)
+    (h1 : sp1.all isSpace = true) (hk : NoCP k) :
+    KeptDelims cfg (sp1 ++ k ++ rest)
+      (checkRemainingInput cfg (some attrDelims)
+        { left := k.reverse ++ sp1.reverse, right := rest, eof := eof, fail := fail, bad := false, skipws := sk } e).1 := by
+  obtain ⟨lay, g, hm1, hm2, hm3, hm4⟩ := cri_left cfg
+    { left := k.reverse ++ sp1.reverse, right := rest, eof := eof, fail := fail, bad := false, skipws := sk } e rfl
+  generalize checkRemainingInput cfg (some attrDelims)
+    { left := k.reverse ++ sp1.reverse, right := rest, eof := eof, fail := fail, bad := false, skipws := sk } e = X at hm1 hm2 ⊢
+  refine ⟨sp1 ++ k, lay, g, ?_, ?_, (NoCP.blanks h1).append hk, hm3, NoCP.of_notDelim hm4⟩
+  · simp only at hm2; rw [hm2]; simp
+  · simp only at hm1; rw [hm1]; simp
+
+
+theorem numForm_noCP (f : NumForm) (h : f.WF) : NoCP f.text := by
+  obtain ⟨h1, h2, h3, h4⟩ := h
+  unfold NumForm.text
+  refine (NoCP.sign h1).append ((NoCP.digits h2).append (NoCP.append ?_ ?_))
+  · cases hf : f.fr with
+    | none => exact NoCP.nil
+    | some fp =>
+      intro b hb
+      simp [frText] at hb
+      rcases hb with rfl | hb
+      · decide
+      · exact NoCP.digits (by simpa [frDigits, hf] using h3) b hb
+  · cases hx : f.ex with
+    | none => exact NoCP.nil
+    | some p =>
+      obtain ⟨el, esg, ed⟩ := p
+      obtain ⟨hel, hes, hed, _⟩ := h4 el esg ed hx
+      intro b hb
+      simp [exTextN] at hb
+      rcases hb with rfl | hb | hb
+      · rcases hel with rfl | rfl <;> decide
+      · exact NoCP.sign hes b hb
+      · exact NoCP.digits hed b hb
+
+
+theorem kept_dollar {F} (ops : FloatOps F) (cfg : LexCfg) (lookup : Int → RefLookup) (k : Kind) (nullable : Bool)
+    (sp1 t : List Byte) (h2 : sp1.all isSpace = true) (r : ReadResult F)
+    (h : attrRead ops cfg lookup k nullable (IStream.ofBytes (sp1 ++ 36 :: t)) = .ok r) :
+    KeptDelims cfg (sp1 ++ 36 :: t) r.s := by
+  rw [attrRead_dollar ops cfg lookup k nullable sp1 t h2] at h
+  simp only [Outcome.ok.injEq] at h
+  subst h
+  have := kept_through_cri cfg sp1 [36] t false false true Sev.null h2 (by intro b hb; simp at hb; subst hb; decide)
+  simpa using this
+
+
+theorem kept_missing {F} (ops : FloatOps F) (cfg : LexCfg) (lookup : Int → RefLookup) (k : Kind) (nullable : Bool)
+    (sp1 t : List Byte) (c : Byte) (h2 : sp1.all isSpace = true) (hc : c = 44 ∨ c = 41) (r : ReadResult F)
+    (h : attrRead ops cfg lookup k nullable (IStream.ofBytes (sp1 ++ c :: t)) = .ok r) :
+    KeptDelims cfg (sp1 ++ c :: t) r.s := by
+  rw [attrRead_missing ops cfg lookup k nullable sp1 t c h2 hc] at h
+  simp only [Outcome.ok.injEq] at h
+  subst h
+  exact ⟨sp1, [], [], by simp, by simp, NoCP.blanks h2, Between.nil cfg, NoCP.nil⟩
+
+
+theorem realCollect_noCP (r : List Byte) : NoCP (realCollect r).1 := by
+  simp only [realCollect, realDigits]
+  refine NoCP.append (NoCP.append (NoCP.append (NoCP.append (NoCP.sign (optSign_spec r)) (NoCP.digits (takeDigits_spec _).1)) ?_)
+    (NoCP.digits (takeDigits_spec _).1)) ?_
+  · rcases optDot_cases (takeDigits (optSign r).2).2 with ⟨h, _⟩ | ⟨h, _⟩ <;> rw [h]
+    · intro b hb; simp at hb; subst hb; decide
+    · exact NoCP.nil
+  · rcases expPart_cases (takeDigits (optDot (takeDigits (optSign r).2).2).2).2 with ⟨h, _, _⟩ | ⟨c, t, _, hc, h, _, _⟩ <;> rw [h]
+    · exact NoCP.nil
+    · intro b hb
+      simp at hb
+      rcases hb with rfl | hb | hb
+      · rcases hc with rfl | rfl <;> decide
+      · exact NoCP.sign (optSign_spec t) b hb
+      · exact NoCP.digits (takeDigits_spec _).1 b hb
+
+
+/-- what `scanWord` does to the stream, for every outcome: it takes a run of `p`-characters, possibly followed by the closing
+    `q`, and nothing else (`l` is the consumed side *before* the current character `c1`) -/
+theorem scanWord_stream (p : Byte → Bool) (q : Byte) (c1 : Byte) (l t1 : List Byte) (sk : Bool) :
+    ∃ k, (scanWord p q c1 { left := c1 :: l, right := t1, eof := false, fail := false, bad := false, skipws := sk }).2.2.left = k.reverse ++ l ∧
+      c1 :: t1 = k ++ (scanWord p q c1 { left := c1 :: l, right := t1, eof := false, fail := false, bad := false, skipws := sk }).2.2.right ∧
+      (∀ b ∈ k, p b = true ∨ b = q) ∧
+      (scanWord p q c1 { left := c1 :: l, right := t1, eof := false, fail := false, bad := false, skipws := sk }).2.2.bad = false ∧
+      (scanWord p q c1 { left := c1 :: l, right := t1, eof := false, fail := false, bad := false, skipws := sk }).2.2.skipws = sk := by
+  by_cases hp : p c1 = true
+  · obtain ⟨w, rest, h1, h2, h3⟩ := wordLoop_go p [] c1 (c1 :: l) t1 hp
+    have hw : ∀ b ∈ c1 :: w, p b = true ∨ b = q := by
+      intro b hb
+      rcases List.mem_cons.mp hb with rfl | hb
+      · exact Or.inl hp
+      · exact Or.inl (List.all_eq_true.mp h2 b hb)
+    rcases h3 with ⟨hr, c', hc', hs⟩ | ⟨x, u, hr, hx, hs⟩
+    · subst hr
+      refine ⟨c1 :: w, ?_, ?_, hw, ?_, ?_⟩
+      · simp [scanWord, runWord, IStream.good, hs]
+      · simp only [scanWord, runWord, IStream.good, hs]; simpa using h1
+      · simp [scanWord, runWord, IStream.good, hs]
+      · simp [scanWord, runWord, IStream.good, hs]
+    · subst hr
+      by_cases hxq : x = q
+      · subst hxq
+        refine ⟨c1 :: (w ++ [x]), ?_, ?_, ?_, ?_, ?_⟩
+        · simp [scanWord, runWord, IStream.good, hs]
+        · simp only [scanWord, runWord, IStream.good, hs]; simpa using h1
+        · intro b hb
+          simp only [List.mem_cons, List.mem_append, List.mem_nil_iff, or_false] at hb
+          rcases hb with rfl | hb | rfl
+          · exact Or.inl hp
+          · exact Or.inl (List.all_eq_true.mp h2 b hb)
+          · exact Or.inr rfl
+        · simp [scanWord, runWord, IStream.good, hs]
+        · simp [scanWord, runWord, IStream.good, hs]
+      · refine ⟨c1 :: w, ?_, ?_, hw, ?_, ?_⟩
+        · simp [scanWord, runWord, IStream.good, hs, hxq, putback_good]
+        · simp only [scanWord, runWord, IStream.good, hs]; simp [hxq, putback_good, h1]
+        · simp [scanWord, runWord, IStream.good, hs, hxq, putback_good]
+        · simp [scanWord, runWord, IStream.good, hs, hxq, putback_good]
+  · have hp' : p c1 = false := by simpa using hp
+    have hs := wordLoop_stop p [] c1 (c1 :: l) t1 hp'
+    by_cases hcq : c1 = q
+    · subst hcq
+      refine ⟨[c1], ?_, ?_, ?_, ?_, ?_⟩ <;> simp [scanWord, runWord, IStream.good, hs]
+    · refine ⟨[], ?_, ?_, ?_, ?_, ?_⟩ <;> simp [scanWord, runWord, IStream.good, hs, hcq, putback_good]
+
+
+theorem kept_through_cri' (cfg : LexCfg) (sp1 k : List Byte) (s : IStream) (e : Sev)
+    (h1 : sp1.all isSpace = true) (hk : NoCP k) (hb : s.bad = false) (hl : s.left = k.reverse ++ sp1.reverse) :
+    KeptDelims cfg (sp1 ++ k ++ s.right) (checkRemainingInput cfg (some attrDelims) s e).1 := by
+  obtain ⟨lay, g, hm1, hm2, hm3, hm4⟩ := cri_left cfg s e hb
+  generalize checkRemainingInput cfg (some attrDelims) s e = X at hm1 hm2 ⊢
+  refine ⟨sp1 ++ k, lay, g, ?_, ?_, (NoCP.blanks h1).append hk, hm3, NoCP.of_notDelim hm4⟩
+  · rw [hm2]; simp
+  · rw [hm1, hl]; simp
+
+
+theorem scanWord_notgood (p : Byte → Bool) (q c : Byte) (s : IStream) (h : s.good = false) :
+    scanWord p q c s = ([], c, s) := by
+  simp [scanWord, runWord, h]
+
+
+theorem xdigit_noCP (k : List Byte) (h : ∀ b ∈ k, isXDigit b = true ∨ b = 34) : NoCP k := by
+  intro b hb
+  rcases h b hb with h | rfl
+  · constructor <;> (intro e; subst e; revert h; decide)
+  · decide
+
+
+theorem enumWord_as_scanWord (c1 : Byte) (l t1 : List Byte) (sk : Bool) :
+    enumWord c1 { left := c1 :: l, right := t1, eof := false, fail := false, bad := false, skipws := sk } =
+      scanWord pw 46 c1 { left := c1 :: l, right := t1, eof := false, fail := false, bad := false, skipws := sk } := by
+  by_cases hp : pw c1 = true
+  · rw [enumWord_eq c1 l t1 sk hp]
+    simp [scanWord, runWord, IStream.good]
+  · have hp' : pw c1 = false := by simpa using hp
+    have ha' : (isAlpha c1 || c1 == 95) = false := by
+      cases h : (isAlpha c1 || c1 == 95)
+      · rfl
+      · rw [alpha_pw h] at hp'; cases hp'
+    simp [enumWord, scanWord, IStream.good, ha']
+
+
+theorem enumWord_notgood (c : Byte) (s : IStream) (h : s.good = false) : enumWord c s = ([], c, s) := by
+  simp [enumWord, runWord, h]
+
+
+theorem pw_noCP (k : List Byte) (h : ∀ b ∈ k, pw b = true ∨ b = 46) : NoCP k := by
+  intro b hb
+  rcases h b hb with h | rfl
+  · constructor <;> (intro e; subst e; revert h; decide)
+  · decide
+
+
+theorem refTail_stream (cfg : LexCfg) (lookup : Int → RefLookup) (s2 : IStream) (err0 : Sev) :
+    ∃ E, (refTail cfg lookup (some attrDelims) s2 err0).2.1 =
+      (checkRemainingInput cfg (some attrDelims) (s2.extractInt32).2 E).1 := by
+  unfold refTail
+  simp only
+  split
+  · exact ⟨_, rfl⟩
+  · split <;> exact ⟨_, rfl⟩
+
+
 end StepModel.P21.Lemmas
